@@ -6,6 +6,14 @@ ALL = ["C%02d" % i for i in range(1, 21)]
 
 # id -> (engine, level, technique, text, note, design_ref)
 CHECKS = {
+ "C11": ("mc-seq", "exploration",
+   "exhaustive enumeration of abstract filters x message universe against an independent spec evaluator, through every library front-end",
+   "All 256 criterion subsets x negated x enabled x kind, every single-criterion variant (incl. all 256 type bytes), all variant pairs, triples and (thorough) a full 8-criterion product are built through each front-end that can express them (JSON explicit/defaulted, DLF in two layouts, dlt-convert list, public fields as the --eac front-end sets them) and evaluated on a 1753-message universe against a three-valued spec evaluator written from the statement; JSON round trip must decide identically. Where statement and documentation leave the semantics undefined only agreement between front-ends is judged.",
+   "Trusted: the harness' spec evaluator. The --eac text parser itself is exercised through the binary under C14.", "4 C11"),
+ "C12": ("mc-seq", "exploration",
+   "exhaustive enumeration of filter tuples x message stream on both set-matching implementations against the statement's rule",
+   "All ordered tuples of <= 4 (thorough 6) filters from a 19-filter pool (every kind x enabled/disabled x plain/negated, overlapping criteria) are run through filter_as_streams over a real channel and match_filters behind StreamContext::from on a 30-message stream: selection, messages unchanged and in order, passed+filtered = received, event-AND clause, agreement of the two implementations.",
+   "Trusted: spec evaluator shared with C11. The export plugin reuses match_filters and is not driven separately.", "4 C12"),
  "C15": ("mc-remote", "model_checking",
    "explicit-state BFS over command histories (dedup on canonical session state), every transition executed on the real remote handlers via the cfg-guarded in-binary driver; reference session model as oracle",
    "Breadth-first search from the initial state (depth 4 quick / 6 thorough) and from 5 prepared non-initial states over a 55-symbol alphabet of valid, malformed, out-of-order and mistyped commands and message-arrival ticks; every transition re-executes the history on process_incoming_text_message / process_file_context inside the adlt binary (in-memory websocket). A reference session model decides: one reply frame of the right form per command and none on ticks, no panic, reply classes for open/close/pause/resume/stream/stop/change-window and for stale/never-issued/non-numeric ids, fresh ids, open flag and stream set consistent with the replies, frames only for live streams, every step (incl. close) returns within the watchdog.",
